@@ -14,7 +14,10 @@ CHECKS = {
              "descriptor (970 routes) and must agree with the type's kind, every TPM2B is (unsigned size, payload) and every "
              "TPMU has _selected_by; W2-W7 walker obligations by CFG dominance and def-use on abstract traces (width/order/"
              "signedness sources, container-first, declaration order, child paths, count/selector sources, union arm "
-             "selection); F framing by loop specialisation of the command/response walkers with L: fields decoded per (tag, "
+             "selection - W6 by specialising the struct walker on each of the ~150 struct layouts of L, W7 on the path summaries of "
+             "the union walker); the primitive's own event is emitted exactly once on every completing path; encrypted() and "
+             "is_list are folded over all 235 parameter areas / type shapes and the encrypted() substitution guard is evaluated "
+             "on every dataclass of L; F framing by loop specialisation of the command/response walkers with L: fields decoded per (tag, "
              "response code) variant, area tables and keys, byte-sized session area, encryption flag provenance, header-only "
              "failed responses. Event values for concrete bytes are not decided.",
         note="trusted: CPython ast; E1 model (guards G1-G7); semantics of int.from_bytes, dataclasses.fields order and generators.",
@@ -26,7 +29,10 @@ CHECKS = {
         text="B1 reader/writer agreement: the decoder's (width, byte order, signedness) sources in the primitive walker and "
              "the encoder's resolved defaults and delegation chain (_INT.to_bytes -> value.to_bytes -> int.to_bytes) must "
              "name the same sources; B2/B3 shape of to_bytes(event)/unmarshal (info and `...` events -> b'', others -> "
-             "event.value.to_bytes(), one-to-one in order); B4 nobody else defines to_bytes; B5 every valid set fits its "
+             "event.value.to_bytes(), one-to-one in order - decided as a decision list on the path summaries of to_bytes, so the "
+             "branch layout is irrelevant; every completed primitive decode emits its own event exactly once in both modes; "
+             "a second reader idiom, in-place big-endian accumulation with two's-complement correction, is recognised and its "
+             "threshold judged exactly); B4 nobody else defines to_bytes; B5 every valid set fits its "
              "width (exhaustive over 102 primitive types). These are necessary conditions of the round trip; byte equality "
              "on concrete inputs is a value clause and is not decided.",
         note="trusted: CPython ast; int.from_bytes/int.to_bytes are mutual inverses for equal (width, order, signedness).",
@@ -51,8 +57,10 @@ CHECKS = {
     ),
     "C04": dict(
         category="other",
-        text="V1 CFG dominance in the primitive walker: the is_valid() test dominates the field's event, the error is built "
-             "exactly on the invalid branch and no raise is reachable after the event; V2 the error's path/type/value/valid "
+        text="V1 primitive walker: the is_valid() test dominates the field's event; on its path summaries the outcome per "
+             "(valid?, strict?) is: invalid+strict raises the constructed error before any event of the field, valid is "
+             "neither warned about nor rejected, invalid+warn emits the event then exactly one warning wrapping the same error; "
+             "no raise is reachable after the event; the error classes store the constraint/value they are given; V2 the error's path/type/value/valid "
              "set by def-use; V3 who-may-convert: int.from_bytes and raw byte requests occur only in the primitive walker; "
              "V4 the membership chain (_INT.is_valid, ValidValues.__contains__/get, NamedRange, enum class membership) has "
              "the membership meaning; V5 valid-value and naming facets of all 719 pinned types (exhaustive); V6 unknown "
@@ -68,7 +76,8 @@ CHECKS = {
              "that reaches it. E1: no return absorbs a pulled-but-unconsumed byte or a truncated input; the superfluous "
              "error carries look-ahead byte + rest of the iterator; leaving the pull loop always reports depletion. E2: both "
              "errors carry the running command code, assigned only from the <root>.commandCode event. E3: the silent "
-             "end-of-input return is control dependent on the stream type, the depleted flag and a root event. Decides the "
+             "end-of-input return is control dependent on the stream type, the depleted flag and a root event; the error "
+             "classes store exactly the surplus bytes / command code they are given (path summaries of their constructors). Decides the "
              "shape of the pump on all paths, not which events precede the error for a concrete truncation point.",
         note="trusted: CPython ast; generator send/StopIteration semantics; processor protocol (C10-T1). The events emitted "
              "before the error (value clause) are not decided.",
@@ -110,8 +119,9 @@ CHECKS = {
         text="Y1 warn-mode variant of the failure-site ledger (strict-only raises removed; allowed aborts = the two command-code "
              "lookups and the union no-member branch; overruns travel to their owner); Y2 owner-catch on the specialised traces: "
              "every decode made while an owner's region is live is inside its SizeConstraintExceededError handler, whose "
-             "ownership test names exactly the regions that owner created and whose body warns and returns (TPM2B byte payload "
-             "exempt, justified from L); Y3 recovery Nones are tested before iteration; Y4 recovery bookkeeping (padding charged "
+             "paths (summaries from the handler on) re-raise iff strict or a foreign region and otherwise yield exactly one warning "
+             "wrapping the caught error and return - however the handler is written, also when it lives in an extracted generator "
+             "helper (TPM2B byte payload exempt, justified from L); Y3 recovery Nones are tested before iteration; Y4 recovery bookkeeping (padding charged "
              "to enclosing regions, nested regions retired, check-before-charge, skip amounts); Y5 completion of the processor on "
              "a byte send handled by the pump. These are necessary structural conditions; the byte tiling itself is not decided.",
         note="trusted: CPython ast; L (E1). Eight open findings (K2, K6a, K6b x4 owners, K6c, K8) are genuine defects recorded in "
@@ -127,7 +137,8 @@ CHECKS = {
              "None`; S3 is_parameter_encryption reads encrypt for responses and decrypt for commands over every session, both "
              "being TPMA_SESSION masks in L; S4 command then response at the stream's root path, mode threaded, no own "
              "termination; S5 separate_events cuts exactly at root-path MarshalEvents and events_to_objs alternates and carries "
-             "the command code into exactly the next message. Equality of concatenated event lists is not decided.",
+             "the command code into exactly the next message (decision lists on the path summaries of one loop iteration); S6 = "
+             "C05-E3: a stream ends silently only at a message boundary. Equality of concatenated event lists is not decided.",
         note="trusted: CPython ast; C01-W5 (child paths extend the parent) for the unambiguity of the cut.",
         technique="def-use on abstract traces (partial evaluation) + shape rules on the pairing helpers",
         design="4/C09",
@@ -152,7 +163,8 @@ CHECKS = {
              "decoder's; A4 both directions build tpm_type(**values) by field name, resolve area layouts through the decoder's "
              "tables and keys, recognise encrypted areas by TPM2B_ENCRYPTED_PARAM's field names, remember a Response's command "
              "code; A5 sibling rule: every node the decoder announces with an event but returns as None is mapped to None by "
-             "the events->object builder too. These are necessary conditions; the round trips themselves are not decided.",
+             "the events->object builder too. A1-A5 are decided on path summaries (hidden / marker / list parent / value per field "
+             "as a decision list), not on the text of the branches. These are necessary conditions; the round trips themselves are not decided.",
         note="trusted: CPython ast; L (E1); dataclass equality semantics.",
         technique="agreement (sibling) rules between decoder traces, the static layout model and the two converters",
         design="4/C11",
@@ -164,8 +176,8 @@ CHECKS = {
              "receiver is a module-level or class-level object; P2 every memoising decorator in reachable code is unbounded or "
              "has capacity >= the key space from L (234 parameter areas); P3 no mutable defaults, no module-level "
              "generators/iterators. Together with Python's determinism this is the property's structural core.",
-        note="trusted: CPython ast; call resolution by name over repo classes (over-approximation); aliasing of module-level "
-             "objects through locals is not tracked (a store via an alias of a global would be missed).",
+        note="trusted: CPython ast; call resolution by name over repo classes (over-approximation); a module-level instance of a "
+             "repo class is followed through one local alias and through methods that return self, deeper aliasing is not tracked.",
         technique="call-graph reachability + effect (purity) analysis + memoisation capacity check against the static layout model",
         design="4/C12",
     ),
@@ -188,7 +200,8 @@ CHECKS = {
              "no element rows; Q3 from L (exhaustive, 44 byte-list fields): every 1-byte list element type is BYTE and every "
              "byte-list parent directly follows its count/size primitive or the union container, so the event handed back by "
              "the folder never needs folding; Q4 row shape: indentation len(path)-1, value text form, hex column = binary "
-             "re-encoding of that event, attribute rows only from the main loop with path+PathNode(attr). The rendered text "
+             "re-encoding of that event (the row is compared as a function of the two column conditions on path summaries, colour "
+             "codes stripped, nested f-strings and str.join flattened), attribute rows only from the main loop with path+PathNode(attr). The rendered text "
              "is not decided.",
         note="trusted: CPython ast; L (E1); C02-B2 for the hex column's content.",
         technique="must-dataflow (guard dominance) + typestate over the printer CFGs + FOLLOW-set facts from the static layout model",
@@ -196,13 +209,14 @@ CHECKS = {
     ),
     "C15": dict(
         category="other",
-        text="F1 every front-end function and facade forwards tpm_type, root_path, command_code, **kwargs and its own byte "
+        text="(F1-F3, F5-F7 are decided on path summaries.) F1 every completing path of every front-end function and facade forwards tpm_type, root_path, command_code, **kwargs and its own byte "
              "stream down to Binary.marshal (50 argument obligations); F2 sibling agreement: all front-ends return the "
              "delegated generator's value; F3 every int(x, 16) sees only bytes tested against a hex alphabet (dominating "
              "test or chain-guarded accumulation); F4=C10-T2 laziness; F5 pcapng size slice / runt threshold recomputed from "
              "the Command/Response header layout in L, trimming never extends, auto magic = pcapng SHB prefix, look-ahead "
-             "bytes re-yielded, dispatch table; F6 swtpm scanner: 4 distinct states exhaustively branched, end-of-input tested "
-             "first, only defined states assigned, one byte per validated digit pair, documented marker/alphabet constants. "
+             "bytes re-yielded, dispatch table; F6 swtpm scanner: the transition table (state x input class -> next state, pending "
+             "digit, marker progress, emitted byte, end) is extracted from the summaries of one loop iteration and compared with "
+             "the documented machine; F7 an input ending inside a digit pair raises ValueError in both text scanners. "
              "Language equivalence of the two text scanners with the documented formats and dpkt's parsing are not decided.",
         note="trusted: CPython ast; L (E1); dpkt. The scanner automata are not explored (that would be model checking).",
         technique="sibling agreement (delegation/return) + dominance of validation tests + constants recomputed from the static layout model + state-machine shape lint",
@@ -247,7 +261,8 @@ CHECKS = {
     ),
     "C19": dict(
         category="other",
-        text="Necessary structural conditions only: L1 argparse choices equal the keys of the dispatch dicts and each key maps "
+        text="Necessary structural conditions only, decided on the path summaries of convert / fuzzy_match / main / the type "
+             "search / the example loop (so helper extraction and branch layout are irrelevant): L1 argparse choices equal the keys of the dispatch dicts and each key maps "
              "to the front-end/printer of its name; L2 every refusal path returns a non-zero constant after a stderr message, "
              "the normal end returns 0, main exits with the sub-command's status; L3 convert hands type, command code, the file "
              "bytes and warn mode to the selected front-end and prints every item the selected printer yields (hex for bytes) "
@@ -255,7 +270,7 @@ CHECKS = {
              "L5 example output is under the command-code filter / exact-type selection and rendered from one event list. The "
              "statement's observable (stdout / exit status of a process) is not decided.",
         note="weakest claim: shape of __main__.py only; trusted: argparse semantics.",
-        technique="table agreement + return-status and def-use lint over the CLI module",
+        technique="table agreement + decision lists over path summaries of the CLI functions",
         design="4/C19",
     ),
     "C20": dict(
@@ -309,7 +324,9 @@ def main():
             {"name": "tpmsa", "path": "/verif/tpmsa", "serves_properties": sorted(CHECKS),
              "kind_free_text": "repository-specific static analyser (CPython ast/symtable only): E1 abstract "
                                "evaluator of the spec tables, E2 CFG/typestate/def-use toolkit, E3 call graph and "
-                               "failure-site ledger, E4 obligations/evidence"},
+                               "failure-site ledger, E4 obligations/evidence, E5 refactoring-tolerant normal form "
+                               "(helper inlining etc. against a pinned shape), path summaries with decision lists, "
+                               "folding of table-manipulating functions over table data"},
         ],
         "checks": checks,
         "notes": "Static analysis only. exit 0 ok / 1 VIOLATION / 2 ANALYSIS-ERROR. See DESIGN.md.",
